@@ -215,7 +215,15 @@ func checkLogImage(g *gen.G, desc string, file []byte, tmp []byte, hasTmp bool, 
 	}
 }
 
-func logProgram(g *gen.G, length int, allCuts bool) {
+// scripts: operation kinds forced in order (a = append, t = truncate, c = compact, d = discard, r = reopen)
+var scripts = []string{"aactar", "acatar", "adatar", "aatar", "acrtar", "aacatr", "aadar", "aaccar", "acacar", "atatar", "aacaatar"}
+
+func logProgram(g *gen.G, length int, allCuts bool) { logProgramS(g, length, allCuts, "") }
+
+func logProgramS(g *gen.G, length int, allCuts bool, script string) {
+	if script != "" {
+		length = len(script)
+	}
 	dir := newImageDir()
 	defer os.RemoveAll(dir)
 	l, res := reopen(dir)
@@ -232,7 +240,13 @@ func logProgram(g *gen.G, length int, allCuts bool) {
 		desc := func(what string) string {
 			return fmt.Sprintf("program [%s] then %s", short(strings.Join(prog, "/")), short(what))
 		}
-		switch k := g.R.Intn(10); {
+		k := g.R.Intn(10)
+		if script != "" {
+			k = map[byte]int{'a': 0, 't': 5, 'c': 6, 'd': 6, 'r': 9}[script[step]]
+		}
+		forceDiscard := script != "" && script[step] == 'd'
+		forceCompact := script != "" && script[step] == 'c'
+		switch {
 		case k < 5: // append 1..4 entries
 			n := 1 + g.R.Intn(4)
 			if g.R.Intn(4) == 0 {
@@ -304,7 +318,7 @@ func logProgram(g *gen.G, length int, allCuts bool) {
 		case k < 8: // compact / discard
 			var op string
 			var err error
-			if bd.size > 0 && g.R.Intn(3) > 0 {
+			if bd.size > 0 && !forceDiscard && (forceCompact || g.R.Intn(3) > 0) {
 				idx := bd.pidx + 1 + uint64(g.R.Intn(bd.size))
 				op = "C=" + gen.U(idx)
 				err = l.Compact(idx)
@@ -551,6 +565,24 @@ func snapProgram(g *gen.G, nsnaps int, nodeCheck bool) {
 		}
 		ops = append(ops, "N="+strings.Join([]string{gen.U(rec.index), gen.U(rec.term), gen.Hex(rec.conf)}, ","))
 		image(d0+": after NewSnapshotFile", nil, ops)
+		liveRead := func(when string) {
+			lf, err := ss.SnapshotFile()
+			got := "NONE"
+			if err != nil {
+				violate("C13 %s: SnapshotFile failed while a writer is open (%s): %v", d0, when, err)
+				return
+			}
+			if lf != nil {
+				data, _ := io.ReadAll(lf)
+				lf.Close()
+				m := lf.Metadata()
+				got = snapRec{m.LastIncludedIndex, m.LastIncludedTerm, m.Configuration, data}.S()
+			}
+			if got != latest {
+				violate("C13 %s: with an unfinished writer open (%s) the storage shows %s, expected the most recent closed snapshot %s", d0, when, short(got), short(latest))
+			}
+		}
+		liveRead("after NewSnapshotFile")
 		for c := 0; c < nchunks; c++ {
 			chunk := g.Bytes(50000)
 			if _, err := f.Write(chunk); err != nil {
@@ -560,6 +592,7 @@ func snapProgram(g *gen.G, nsnaps int, nodeCheck bool) {
 			rec.data = append(rec.data, chunk...)
 			ops = append(ops, "W="+gen.Hex(chunk))
 			image(d0+fmt.Sprintf(": after chunk %d", c), nil, ops)
+			liveRead(fmt.Sprintf("after chunk %d", c))
 		}
 		if closeIt {
 			if err := f.Close(); err != nil {
@@ -598,6 +631,9 @@ func main() {
 	defer os.RemoveAll(scratch)
 	if strings.Contains(*which, "log") {
 		// short programs with every byte cut, then longer random ones
+		for _, sc := range scripts {
+			logProgramS(g, 0, *allCuts, sc)
+		}
 		for i := 0; i < *nprog; i++ {
 			logProgram(g, 3, true)
 		}
